@@ -22,13 +22,23 @@ LEVEL_TEXT = ("Proof over the reals: delta1 = 1 - sum_{j<n} pmf(j) = sum_{j>=n} 
               "rounding; false at 2^35); the mean is (sum of stored rates) x (LAST scale factor) after any history of scale "
               "calls; delta1/delta2 are monotone in that factor and in the number of rows of the observed catalog; the laws "
               "have the stated moments (series E N = mean, E (N-mean)^2 = variance for the code's NBD parameters, which are "
-              "admissible exactly when variance > mean). Tied to the code by a numerical correspondence of "
+              "admissible exactly when variance > mean). Round 4: for the NBD law delta1 is non-decreasing and delta2 non-increasing "
+              "whenever the code's parameters move as r1 <= r2, p2 <= p1 (monotone likelihood ratio => stochastic order, every "
+              "count n), in particular in the mean along a fixed or non-decreasing dispersion var/mean; with the VARIANCE fixed "
+              "the clause is false of the law (kernel-checked witness: mean 2 -> 3 at variance 4, n = 10); for every epsilon with "
+              "2^-k <= eps <= 1 - 2^-k and (n+1) 2^k <= 2^53 the float64 values n -/+ eps floor to n - 1 and n; a history of "
+              "scale / scale_to_test_date calls is the history of the factors that took effect; the float64 value of "
+              "1.0 - ((var - mean)/var) lies in [0,1] and IS 0 at var = 1e17 x mean (candidate finding); 1.0 - cdf is a "
+              "double in [0,1] for every cdf value in [0,1]; the catalog N-test counts the catalogs DELIVERED by the pass, "
+              "whatever number (n_cat) the forecast announced, and the pass corrects the announcement. Tied to the code by a numerical correspondence of "
               "the Float instance with the implementation and a scipy oracle on every run.")
 LEVEL_NOTE = ("Theorems are over the reals; scipy's poisson.cdf / nbinom.cdf are taken to be the finite sums of the mass function "
               "(compared numerically each run: 1e-9 relative for n <= 2000, 1e-7 for larger n where the Float log-factorial "
               "accumulates rounding). "
-              "Monotonicity in the mean is proved for the Poisson law; for the NBD law with a FIXED variance it is false in "
-              "general (heavy upper tail at small mean) and is only checked along a fixed dispersion var/mean.")
+              "Monotonicity in the mean is proved for the Poisson law and, since round 4, for the NBD law along non-decreasing "
+              "dispersion var/mean (with non-decreasing shape); for the NBD law with a FIXED variance it is false of the law "
+              "(proved witness). AWAITING_DECISION: the code's probability parameter 1.0 - ((var - mean)/var) cancels (nan for "
+              "var >= ~9e15 x mean); the generators keep var <= 1e4 x mean (NBD_DISPERSION_CAP) until that is decided.")
 DESIGN_REF = "DESIGN.md §4 C07"
 TECHNIQUE = "Lean 4 theorems over Mathlib reals (generic RealOps model) + Float-instance correspondence + scipy oracle"
 
@@ -53,14 +63,25 @@ THEOREMS = ["NumberTest.floor_shift", "NumberTest.cdf_shift", "NumberTest.pmf_cl
             # phase 2: array-valued scale factors, forecasts that filter on the fly, history independence
             "NumberTest.array_scale_total", "NumberTest.array_scale_const", "NumberTest.public_array_number_test_tails",
             "NumberTest.cf_ntest_filtered", "NumberTest.cf_ntest_unfiltered", "NumberTest.cf_pass_idempotent",
-            "NumberTest.cf_ntest_history"]
+            "NumberTest.cf_ntest_history",
+            # round 4, Properties/C07_Deep.lean: the NBD monotonicity clause decided, any epsilon in float64, the code's
+            # float64 probability parameter
+            "NumberTest.float_floor_shift_eps", "NumberTest.shiftF_eq_shiftFE", "NumberTest.nbd_delta_mono_params",
+            "NumberTest.nbd_delta_mono_mean_dispersion", "NumberTest.nbd_delta_mono_mean_fixed_dispersion",
+            "NumberTest.public_nbd_scale_mono_fixed_dispersion", "NumberTest.nbd_fixed_variance_not_monotone",
+            "NumberTest.upsilon_float_range", "NumberTest.finding_nbd_upsilon_zero",
+            "NumberTest.finding_nbd_upsilon_inexact", "NumberTest.history_eq_effective",
+            "NumberTest.public_number_test_after_history", "NumberTest.cfa_ntest_announced_irrelevant",
+            "NumberTest.cfa_pass_corrects_announced", "NumberTest.delta1_float_range"]
 TRUSTED = ["Lean 4.33 kernel", "axioms: propext, Classical.choice, Quot.sound at most",
            "scipy.stats.poisson.cdf(x, mu) / nbinom.cdf(x, r, p) compute the finite sums of the mass function up to floor(x) "
            "(0 for x < 0); compared numerically with the Float instance of the model on every run, not proved",
            "rounding of exp/log/cdf in float64 is outside every theorem (Float instance vs real instance)",
            "numpy.sum of the forecast rates is the forecast total (compared with math.fsum to 1e-12 relative, and with the "
            "model's own sequential sum of stored rate x factor in the public-history cases)",
-           "Soft64 = IEEE binary64 for n -/+ 1e-6 (compared with numpy on every run, also beyond the proved range)",
+           "Soft64 = IEEE binary64 for n -/+ eps and for 1.0 - ((var - mean)/var) (compared with numpy / IEEE arithmetic on "
+           "every run, also beyond the proved ranges)",
+           "the fraction scale_to_test_date sets (decimal years) is booked by the harness's own arithmetic (C11 / C15's subject)",
            "C09 (get_quantiles) for the catalog N-test",
            "harness/c07.py generators and comparison; driver parsing (Proto.lean)"]
 RULE = ("mu in 10^U(-6,5) plus decimal/integer boundary means; n in {0,1,2, floor(mu)+-3, mu+-c*sqrt(mu), U(0,2000), U(0,1e5), "
@@ -68,11 +89,15 @@ RULE = ("mu in 10^U(-6,5) plus decimal/integer boundary means; n in {0,1,2, floo
         "(optionally scaled) / CSEPCatalog / CatalogForecast objects; observed (and synthetic) catalogs that are NOT cut "
         "to the forecast: events below the lowest magnitude edge (also 1 ulp below it), far above the top edge, outside "
         "the spatial region - n_obs is the number of events of the catalog for all three tests, which must agree on it; "
-        "call sequences on ONE catalog forecast (list in memory / CSV file with store on / off): optional first pass "
+        "call sequences on ONE catalog forecast (list in memory / CSV file with store on / off / generator object / user "
+        "loader function with store on / off; announced n_cat not given / exact / too small / too large): optional first pass "
         "(N-test, get_event_counts, plain loop), then the catalogs are changed in place inside or outside a loop over the "
         "forecast (filter with a string / a list, truncation of catalog.catalog, replaced list entries), then the N-test "
         "twice: distribution and deltas must be those of the catalogs as they are now (re-read from file when store is "
-        "off); monotonicity on sorted grids of means for fixed n. "
+        "off); monotonicity on sorted grids of means for fixed n, and on pairs (mean1, var1), (mean2, var2) drawn from the "
+        "whole region the NBD theorem allows; scale_to_test_date entries (before / on the start, inside, leap day, last day, "
+        "last second, on / after the end) in the scale histories; epsilon arguments 1e-12..1-2^-53 for the float64 floor; "
+        "(mean, var) of every dispersion (one ulp above the mean .. 2^58 x mean) for the float64 probability parameter. "
         "A case is non-trivial when n >= 1 and P(N = n) > 1e-12 (the inclusive/exclusive tail convention is visible), or "
         "for the catalog test when some synthetic size equals n_obs; distinct by (kind, mean, variance, n) / (sizes, n_obs)")
 
@@ -155,21 +180,77 @@ def _pois_oracle(run, case, mu, n, d1, d2):
 
 EPS_POOL = [1e-3, 0.25, 0.5, 0.999, 1e-8, 1e-6, 0.1]
 
+# ----------------------------------------------------------------------------- private helpers may be absent
+_HELPER = {}
+
+
+def _helper(run, mod, name, *probe_args, **probe_kw):
+    """the private array-level helper `name` of module `mod` if it exists on the tree under test AND accepts the documented
+    arguments; otherwise None (counted as helper-missing:<name>, noted in the assumptions): the cases are then driven
+    through the PUBLIC number tests on a one-bin forecast of that total and a catalog of that many events"""
+    key = (mod.__name__, name)
+    if key not in _HELPER:
+        import inspect
+        fn = getattr(mod, name, None)
+        if fn is not None:
+            try:
+                inspect.signature(fn).bind(*probe_args, **probe_kw)
+            except TypeError:
+                fn = None
+            except ValueError:
+                pass                     # no introspectable signature: try it
+        _HELPER[key] = fn
+        if fn is None:
+            run.assumptions.append(f"private helper {mod.__name__}.{name} is absent (or has another signature) on the tree under "
+                                   f"test: its direct cases run through the public number tests instead")
+    if _HELPER[key] is None:
+        run.count(f"helper-missing:{name}")
+    return _HELPER[key]
+
+
+_ONE_BIN = {}
+PUBLIC_FALLBACK_MAX_N = 20000
+
+
+def _public_pair(run, case, mu, n, var=None):
+    """(delta1, delta2) of the public gridded N-test on a forecast with the single rate `mu` and a catalog of `n` events"""
+    from csep.core import poisson_evaluations as pe, binomial_evaluations as be
+    from csep.core.forecasts import GriddedForecast
+    if n > PUBLIC_FALLBACK_MAX_N:
+        run.count("helper-missing:case-skipped-large-n")
+        return None
+    reg = _region(1, 1, 1)
+    f = GriddedForecast(start_time=datetime.datetime(2020, 1, 1), end_time=datetime.datetime(2021, 1, 1),
+                        data=numpy.array([[float(mu)]]), region=reg[0], magnitudes=reg[1], name="one-bin")
+    if n not in _ONE_BIN:
+        if len(_ONE_BIN) > 64:
+            _ONE_BIN.clear()
+        _ONE_BIN[n] = _catalog(n, reg, 4242)
+    res = pe.number_test(f, _ONE_BIN[n]) if var is None else be.negative_binomial_number_test(f, _ONE_BIN[n], var)
+    return res.quantile[0], res.quantile[1]
+
 
 def _pois_case(run, drv, pending, rng, mu, n, tag, np_types=False, eps=None):
     from csep.core import poisson_evaluations as pe
     case = dict(kind="pois", mu=repr(float(mu)), n=int(n), tag=tag)
     if eps is not None:
         case["eps"] = repr(eps)
+    helper = _helper(run, pe, "_number_test_ndarray", 1.0, 1, epsilon=1e-6)
     try:
-        if eps is not None:
+        if helper is None:
+            eps = None
+            case.pop("eps", None)
+            pair = _public_pair(run, case, mu, n)
+            if pair is None:
+                return None
+            d1, d2 = pair
+        elif eps is not None:
             # the documented third argument: any 0 < epsilon < 1 must give the same two tails
-            d1, d2 = pe._number_test_ndarray(float(mu), int(n), epsilon=eps) if n % 2 else \
-                pe._number_test_ndarray(float(mu), int(n), eps)
+            d1, d2 = helper(float(mu), int(n), epsilon=eps) if n % 2 else helper(float(mu), int(n), eps)
         elif np_types:
-            d1, d2 = pe._number_test_ndarray(numpy.float64(mu), numpy.int64(n))
+            d1, d2 = helper(numpy.float64(mu), numpy.int64(n))
         else:
-            d1, d2 = pe._number_test_ndarray(float(mu), int(n))
+            d1, d2 = helper(float(mu), int(n))
         d1, d2 = float(d1), float(d2)
     except Exception as e:
         run.oracle_failure(case, f"exception {type(e).__name__}: {e}")
@@ -188,6 +269,9 @@ def _pois_case(run, drv, pending, rng, mu, n, tag, np_types=False, eps=None):
 # ----------------------------------------------------------------------------- NBD, array level
 def _nbd_oracle(run, case, mu, var, n, d1, d2):
     import scipy.stats
+    # beyond the generator cap only when NBD_WIDE_DISPERSION is set: failures there carry the finding's signature
+    sig = "nbd:upsilon-cancellation" if var > NBD_DISPERSION_CAP * mu * (1 + 1e-9) else None
+    fail = (lambda c, d: run.oracle_failure(c, d, signature=sig))
     p = float(Fraction(mu) / Fraction(var))
     r = float(Fraction(mu) ** 2 / (Fraction(var) - Fraction(mu)))
     sf = float(scipy.stats.nbinom.sf(n - 1, r, p))
@@ -196,13 +280,13 @@ def _nbd_oracle(run, case, mu, var, n, d1, d2):
     # the float parameters of the code carry a relative error ~1e-16/(1-mu/var); tails move by about that times r
     slack = 1e-9 + 4e-16 * r * var / (var - mu)
     if not _close(d1, sf, slack, 1e-12 + slack * 1e-3):
-        run.oracle_failure(case, f"delta1={d1!r} but P(N>=n)={sf!r} (r={r!r}, p={p!r})")
+        fail(case, f"delta1={d1!r} but P(N>=n)={sf!r} (r={r!r}, p={p!r})")
     if not _close(d2, cdf, slack, 1e-300 + slack * 1e-3):
-        run.oracle_failure(case, f"delta2={d2!r} but P(N<=n)={cdf!r} (r={r!r}, p={p!r})")
+        fail(case, f"delta2={d2!r} but P(N<=n)={cdf!r} (r={r!r}, p={p!r})")
     if not abs(d1 + d2 - 1.0 - pmf) <= 1e-9 + slack:
-        run.oracle_failure(case, f"delta1+delta2-1={d1 + d2 - 1.0!r} but P(N=n)={pmf!r}")
+        fail(case, f"delta1+delta2-1={d1 + d2 - 1.0!r} but P(N=n)={pmf!r}")
     if not (0.0 <= d1 <= 1.0 and 0.0 <= d2 <= 1.0):
-        run.oracle_failure(case, f"delta out of [0,1]: {d1!r} {d2!r}")
+        fail(case, f"delta out of [0,1]: {d1!r} {d2!r}")
     return pmf
 
 
@@ -212,13 +296,21 @@ def _nbd_case(run, drv, pending, rng, mu, var, n, tag, vtype="float", eps=None):
     case = dict(kind="nbd", mu=repr(float(mu)), var=repr(float(var)), n=int(n), tag=tag, vtype=vtype)
     if eps is not None:
         case["eps"] = repr(eps)
+    helper = _helper(run, be, "_nbd_number_test_ndarray", 1.0, 1, 2.0, epsilon=1e-6)
     try:
-        if eps is not None:
-            d1, d2 = be._nbd_number_test_ndarray(float(mu), int(n), float(var), epsilon=eps)
+        if helper is None:
+            eps = None
+            case.pop("eps", None)
+            pair = _public_pair(run, case, mu, n, _as_var(var, vtype, mu))
+            if pair is None:
+                return None
+            d1, d2 = pair
+        elif eps is not None:
+            d1, d2 = helper(float(mu), int(n), float(var), epsilon=eps)
         elif vtype == "float":
-            d1, d2 = be._nbd_number_test_ndarray(float(mu), int(n), float(var))
+            d1, d2 = helper(float(mu), int(n), float(var))
         else:
-            d1, d2 = be._nbd_number_test_ndarray(numpy.float64(mu), numpy.int64(n), _as_var(var, vtype, mu))
+            d1, d2 = helper(numpy.float64(mu), numpy.int64(n), _as_var(var, vtype, mu))
         d1, d2 = float(d1), float(d2)
     except Exception as e:
         run.oracle_failure(case, f"exception {type(e).__name__}: {e}")
@@ -238,7 +330,8 @@ def _gen_var(rng, mu):
     if k < 0.1:
         return mu * 1e4
     if k < 0.2:
-        return mu * (1 + 10 ** rng.uniform(-3, -1))
+        # near-Poisson: the tolerance of the oracle grows with the condition number r x var/(var-mean) of the parameters
+        return mu * (1 + 10 ** rng.uniform(-6, -1))
     if k < 0.3:
         return max(23541.0, mu * 1.5) if mu < 23541.0 else mu * 2.0
     return mu * (1 + 10 ** rng.uniform(-2, 4)) if rng.random() < 0.9 else mu + 10 ** rng.uniform(-3, 3)
@@ -450,7 +543,8 @@ def _public_case(run, drv, pending, case):
             run.count(case2["kind"] + "-rescaled")
 
 
-def _catalog_case(run, drv, pending, rng, tier, sizes=None, nobs=None, extras=None, obs_extras=None):
+def _catalog_case(run, drv, pending, rng, tier, sizes=None, nobs=None, extras=None, obs_extras=None, source=None,
+                  n_cat_kind=None):
     """catalog N-test; `sizes` / `nobs` count the events inside the region, `extras` (one [below, above, outside] triple
     or None per synthetic catalog) and `obs_extras` add events of catalogs that were not cut to the region"""
     from csep.core import catalog_evaluations as ce
@@ -479,6 +573,10 @@ def _catalog_case(run, drv, pending, rng, tier, sizes=None, nobs=None, extras=No
         if obs_extras and sum(obs_extras) > want:
             obs_extras = [min(want, 1), 0, 0] if want else None
         nobs = want - (sum(obs_extras) if obs_extras else 0)
+        # where the catalogs come from and what the forecast is told about their number
+        source = rng.choice(["list", "list", "generator"])
+        n_cat_kind = rng.choice([None, "exact"]) if source == "list" else rng.choice([None, "exact", "small", "large"])
+    source = source or "list"
     extras = extras or [None] * len(sizes)
     cache = {}
 
@@ -488,13 +586,18 @@ def _catalog_case(run, drv, pending, rng, tier, sizes=None, nobs=None, extras=No
             cache[key] = _catalog(k, reg, 1000 + k, e)
         return cache[key]
     case = dict(kind="catalog", sizes=[int(s) for s in sizes], nobs=int(nobs), tag="catalog")
+    if source != "list" or n_cat_kind:
+        case.update(source=source, n_cat_kind=n_cat_kind)
     if any(extras) or obs_extras:
         case.update(extras=extras, obs_extras=obs_extras)
     # what the property speaks about: the number of events of each catalog
     sizes = [k + (sum(e) if e else 0) for k, e in zip(sizes, extras)]
     nobs = nobs + (sum(obs_extras) if obs_extras else 0)
     try:
-        fc = CatalogForecast(catalogs=[cat_of(k, e) for k, e in zip(case["sizes"], extras)], region=reg[0], name="gen")
+        cats = [cat_of(k, e) for k, e in zip(case["sizes"], extras)]
+        kwn = dict(n_cat=_announced(n_cat_kind, len(cats))) if n_cat_kind else {}
+        fc = CatalogForecast(catalogs=(cats if source == "list" else (c for c in cats)), region=reg[0], name="gen", **kwn)
+        run.count(f"catalog:source={source}:n_cat={n_cat_kind}")
         obs = cat_of(case["nobs"], obs_extras)
         # verbose on / off / left at its default (True): the progress output must not change the result
         mode = (sum(case["sizes"]) + case["nobs"]) % 3
@@ -531,10 +634,15 @@ def _catalog_verdict(run, drv, pending, case, sizes, nobs, res, res2, cf=None):
     if res.observed_statistic != nobs:
         run.oracle_failure(case, f"observed statistic {res.observed_statistic!r} is not the number of events {nobs} of the "
                                  f"observed catalog")
-    if not (d1 == kge / ncat and d2 == kle / ncat):
+    # k/n as the correctly rounded quotient, or within an ulp of it (another order of the same exact arithmetic)
+    def is_q(v, k):
+        return v is not None and abs(v - k / ncat) <= 2.3e-16
+    if not (is_q(d1, kge) and is_q(d2, kle)):
         run.oracle_failure(case, f"quantile={d1!r},{d2!r} expected {kge}/{ncat} {kle}/{ncat} (catalog sizes {sizes[:20]}, "
                                  f"n_obs {nobs})")
-    if q2 != (d1, d2) or td1 != [int(s) for s in sizes] or td2 != [int(s) for s in sizes]:
+    # the test distribution as a MULTISET of catalog sizes (the order in which a forecast reports them is not observable
+    # through the property)
+    if q2 != (d1, d2) or sorted(td1) != sorted(int(s) for s in sizes) or sorted(td2) != sorted(int(s) for s in sizes):
         run.oracle_failure(case, f"second pass / test distribution differ from the catalog sizes {sizes[:20]}: "
                                  f"{q2!r} {td1[:20]!r} {td2[:20]!r}")
     if Fraction(kge + kle, ncat) != 1 + Fraction(keq, ncat):
@@ -554,8 +662,31 @@ _OPS = {">=": numpy.greater_equal, "<": numpy.less, ">": numpy.greater, "<=": nu
 # input classes on which the unchanged code does not satisfy the property and which wait for a decision (kept out of the
 # generators): an ABORTED pass (next()/break) before the N-test makes the test count only the remaining catalogs - this
 # is the known finding D27 of C13 ("catalog-forecast:aborted-pass-not-restarted"), the same defect seen through C07
-AWAITING_DECISION = ["catalog-forecast: aborted pass (next()/break) before the catalog N-test (D27, known under C13)"]
+AWAITING_DECISION = ["catalog-forecast: aborted pass (next()/break) before the catalog N-test (D27, known under C13)",
+                     # round 4 (found by widening the variance generator beyond 1e4 x mean; "all admissible NBD variances
+                     # (> mean)" has no upper bound): binomial_evaluations.py:24 forms p as 1.0 - ((var - mean) / var).
+                     # (a) var >= ~9e15 x mean: the quotient rounds to 1.0, p = 0.0, scipy answers nan for both deltas
+                     #     (witness `_nbd_number_test_ndarray(1.0, 0, 1e17)` -> (nan, nan); the law has P(N>=0) = 1);
+                     # (b) below that p carries a relative error ~1.1e-16 x var/mean (8.3e-8 at var/mean = 1e10), e.g.
+                     #     `_nbd_number_test_ndarray(78159.23998281111, 1, 2.4404283166859148e+16)` -> delta1 =
+                     #     6.625184153e-06, the law has 6.625190878e-06 (80-digit arithmetic): 1.0e-6 relative, 6.7e-12
+                     #     absolute, outside the 1e-9 / 1e-12 band every other NBD case is held to.
+                     # Proposed patch: `upsilon = mean / var` (the same number, one rounding). Lean: finding_nbd_upsilon_zero,
+                     # finding_nbd_upsilon_inexact. Until decided the generators keep var <= NBD_DISPERSION_CAP x mean.
+                     "nbd: upsilon = 1.0 - ((var - mean) / var) cancels: nan for var >= ~9e15*mean, relative error "
+                     "1.1e-16*var/mean in p below that (signature nbd:upsilon-cancellation)"]
+NBD_DISPERSION_CAP = 1e4
+# set True once the finding above is decided (repaired in /repo, or entered in known_findings.json with the signature
+# "nbd:upsilon-cancellation"): the wide-dispersion class var/mean in (1e4, 1e17] is then generated and judged by the
+# same oracle as every other NBD case
+NBD_WIDE_DISPERSION = False
 SEQ_CUTS = [4.0, 4.5, 4.25, 3.7]
+
+
+def _announced(kind, delivered):
+    """the `n_cat` keyword of CatalogForecast: not given, the number of catalogs the source delivers, fewer, or more (a
+    file / generator that holds fewer catalogs than announced, e.g. trailing empty catalogs absent from the file)"""
+    return {None: None, "exact": delivered, "small": max(delivered // 2, 1), "large": delivered + 1 + delivered % 3}[kind]
 
 
 class _SimForecast:
@@ -565,7 +696,8 @@ class _SimForecast:
     def __init__(self, arrays, mode, cfg, nx=2, ny=2):
         self.orig = [a.copy() for a in arrays]
         self.cur = [a.copy() for a in arrays]
-        self.mode, self.cfg = mode, cfg
+        self.mode, self.cfg = ("store" if mode in ("generator", "loader-store") else
+                               ("nostore" if mode == "loader-nostore" else mode)), cfg
         self.apply = bool(cfg and cfg["apply"])
         self.nx, self.ny = nx, ny
         self.passes = 0
@@ -606,15 +738,18 @@ def _gen_seq_case(rng, tier):
     pool = [rng.randint(0, 14) for _ in range(rng.randint(2, 5))]
     sizes = [rng.choice(pool) for _ in range(ncat)]
     extras = [[rng.randint(0, 6), rng.randint(0, 1), rng.randint(0, 2)] if rng.random() < 0.7 else None for _ in sizes]
-    mode = rng.choice(["memory", "memory", "store", "store", "nostore"])
+    # source of the catalogs: a list in memory / a CSV file read by load_catalog_forecast (store on / off) / a generator
+    # object handed to `catalogs=` / a user-supplied `loader=` function with store on / off
+    mode = rng.choice(["memory", "memory", "store", "store", "nostore", "generator", "generator", "loader-store",
+                       "loader-nostore"])
     pre = rng.choice(["none", "none", "ntest", "counts", "loop"])
     mut = rng.choice(["filter-str", "filter-str", "filter-list", "truncate", "replace", "none"])
     where = rng.choice(["in-loop", "in-loop", "direct"])
-    if mode == "nostore":
+    if mode in ("nostore", "loader-nostore"):
         where = "in-loop"
         if mut == "replace":
             mut = "filter-str"
-    if mode == "store" and pre == "none":
+    if mode in ("store", "generator", "loader-store") and pre == "none":
         where = "in-loop"          # before the first pass the forecast holds a generator, not a list
     subset = rng.choice(["all", "all", "even", "first"])
     seq = dict(mode=mode, pre=pre, mut=mut, where=where, subset=subset, cut=rng.choice(SEQ_CUTS),
@@ -628,10 +763,16 @@ def _gen_seq_case(rng, tier):
                    spatial=rng.random() < 0.4)
         if rng.random() < 0.5:
             seq["pre"] = "none"
-            if mode == "store":
+            if mode in ("store", "generator", "loader-store"):
                 seq["where"] = "in-loop"
-        if rng.random() < 0.4:
+        if rng.random() < 0.4 or cfg["apply"]:
+            # a forecast that filters on the fly may keep the filtered catalogs (as now) or filter copies on every pass: what
+            # a change made by the CALLER to such catalogs then meets is not fixed by the property - the caller's in-place
+            # changes are combined only with forecasts that hand out their catalogs as they are
             seq["mut"] = "none"
+    # the announced number of catalogs (constructor keyword n_cat): a list must announce its length (the class asserts it);
+    # every other source may announce nothing, the right number, too few or too many
+    seq["n_cat"] = rng.choice([None, "exact"]) if mode == "memory" else rng.choice([None, "exact", "small", "large", "large"])
     return dict(kind="catalog-seq", sizes=sizes, extras=extras, seq=seq, cfg=cfg, obs_pick=rng.randrange(6),
                 tag="catalog-seq")
 
@@ -690,17 +831,30 @@ def _catalog_seq_case(run, drv, pending, case):
         if cfg["filters"]:
             kw["filters"] = cfg["filters"][0] if cfg["as_str"] else list(cfg["filters"])
     tmpdir = None
+    ann = _announced(seq.get("n_cat"), len(arrays))
+    if seq.get("n_cat") is not None:
+        kw = dict(kw, n_cat=ann)
     try:
         with contextlib.redirect_stdout(io.StringIO()):
             if seq["mode"] == "memory":
                 fc = CatalogForecast(catalogs=[CSEPCatalog(data=a.copy(), region=reg[0], catalog_id=j)
                                                for j, a in enumerate(arrays)], region=reg[0], name="gen", **kw)
+            elif seq["mode"] == "generator":
+                fc = CatalogForecast(catalogs=(CSEPCatalog(data=a.copy(), region=reg[0], catalog_id=j)
+                                               for j, a in enumerate(arrays)), region=reg[0], name="gen", **kw)
+            elif seq["mode"] in ("loader-store", "loader-nostore"):
+                def user_loader(format=None, filename=None, region=None, name=None, **_):
+                    return (CSEPCatalog(data=a.copy(), region=region, catalog_id=j) for j, a in enumerate(arrays))
+                fc = CatalogForecast(filename="unused-by-the-loader", loader=user_loader, region=reg[0], name="gen",
+                                     store=(seq["mode"] == "loader-store"), **kw)
             else:
                 tmpdir = tempfile.mkdtemp(prefix="c07_", dir=os.environ.get("TMPDIR", "/tmp"))
                 path = os.path.join(tmpdir, "forecast.csv")
                 _write_forecast_csv(path, arrays)
-                fc = csep.load_catalog_forecast(path, region=reg[0], store=(seq["mode"] == "store"), name="gen",
-                                                **(kw or dict(apply_filters=False)))
+                kwf = dict(kw)
+                if not cfg:
+                    kwf.setdefault("apply_filters", False)
+                fc = csep.load_catalog_forecast(path, region=reg[0], store=(seq["mode"] == "store"), name="gen", **kwf)
             obs = _catalog(nobs, reg, 77)
             first = None
             if seq["pre"] == "ntest":
@@ -724,6 +878,11 @@ def _catalog_seq_case(run, drv, pending, case):
                 if seq["where"] == "in-loop" or not isinstance(fc.catalogs, list):
                     for _ in fc:       # a complete pass; afterwards the catalogs are a list on the forecast
                         pass
+                if not isinstance(fc.catalogs, list):
+                    # how a forecast keeps its catalogs after a pass is not the property's business: without a list to
+                    # assign into, this kind of change by the caller cannot be expressed - skipped, not judged
+                    run.count("seq:replace-skipped-catalogs-not-a-list")
+                    return
                 for j in chosen:
                     fc.catalogs[j] = CSEPCatalog(data=_catalog_array(seq["repl"][0], reg, seq["repl"][1] + j),
                                                  region=reg[0], catalog_id=j)
@@ -732,7 +891,12 @@ def _catalog_seq_case(run, drv, pending, case):
                     for j, c in enumerate(fc):
                         mutate(j, c)
                 else:
-                    for j, c in enumerate(fc.catalogs):
+                    try:
+                        held = list(fc.catalogs)
+                    except TypeError:
+                        run.count("seq:direct-skipped-catalogs-not-iterable")
+                        return
+                    for j, c in enumerate(held):
                         mutate(j, c)
             res = ce.number_test(fc, obs, verbose=False)
             res2 = ce.number_test(fc, obs, verbose=False)
@@ -764,12 +928,38 @@ def _catalog_seq_case(run, drv, pending, case):
                   + (":first-pass" if passes_before_test == 0 else ":later-pass"))
     run.count(f"seq:{seq['mode']}:{seq['mut']}" + (":changed" if expect != before else ""))
     run.count(f"seq-pre:{seq['pre']}")
+    run.count(f"seq-source:{seq['mode']}:n_cat={seq.get('n_cat')}" + (":first-pass" if passes_before_test == 0 else ":later-pass"))
 
 
 
 # ----------------------------------------------------------------------------- public functions: scale histories, layouts
 LAYOUTS = ["C", "F", "strided", "int64", "neg-stride"]
 HIST_POOL = [0.5, 2.0, 1, 1.0, 1 / 365.25, 7 / 365, 3, 0.1, 10.0]
+
+
+# test dates for scale_to_test_date: before / on the start, just inside, leap day, mid-year, last day (fraction 1), last second
+# (fraction > 1), on / after the end
+DATE_POOL = [[2019, 12, 31, 0, 0, 0], [2020, 1, 1, 0, 0, 0], [2020, 1, 1, 0, 0, 1], [2020, 2, 29, 0, 0, 0], [2020, 7, 1, 12, 0, 0],
+             [2020, 12, 30, 0, 0, 0], [2020, 12, 31, 0, 0, 0], [2020, 12, 31, 23, 59, 59], [2021, 1, 1, 0, 0, 0], [2021, 6, 1, 0, 0, 0],
+             [2020, 3, 1, 0, 0, 0], [2020, 1, 2, 0, 0, 0]]
+_T0, _T1 = datetime.datetime(2020, 1, 1), datetime.datetime(2021, 1, 1)
+
+
+def _decyear(dt):
+    """the harness's own decimal year (year + elapsed fraction of that year, leap years counted)"""
+    import calendar
+    ndy = 366.0 if calendar.isleap(dt.year) else 365.0
+    nd = sum(calendar.monthrange(dt.year, i)[1] for i in range(1, dt.month))
+    return dt.year + (nd + (dt.day - 1) + dt.hour / 24.0 + dt.minute / 1440.0
+                      + (dt.second + dt.microsecond * 1e-6) / 86400.0) / ndy
+
+
+def _date_factor(spec):
+    """(datetime, inside the period?, the fraction scale_to_test_date is documented to set: the test day counts fully)"""
+    t = datetime.datetime(*spec["date"])
+    inside = _T0 < t < _T1
+    frac = (_decyear(t + datetime.timedelta(1)) - _decyear(_T0)) / (_decyear(_T1) - _decyear(_T0))
+    return t, inside, frac
 
 
 def _gen_hist(rng):
@@ -786,6 +976,12 @@ def _gen_hist(rng):
             hist.append(dict(arr=rng.choice(["mag", "cell", "full", "0d", "one", "row"]), seed=rng.randrange(2 ** 32),
                              zero=rng.random() < 0.2))
             continue
+        if rng.random() < 0.25:
+            # the other public way to set the factor: scale_to_test_date (forecast period 2020-01-01 .. 2021-01-01)
+            hist.append(dict(date=rng.choice(DATE_POOL) if rng.random() < 0.5 else
+                             [2020, rng.randint(1, 12), rng.randint(1, 28), rng.randint(0, 23), rng.randint(0, 59), rng.randint(0, 59)],
+                             aware=rng.random() < 0.0))
+            continue
         v = rng.choice(HIST_POOL) if rng.random() < 0.6 else 10 ** rng.uniform(-3, 3)
         hist.append(v if isinstance(v, int) else repr(float(v)))
     mu_guess = total
@@ -798,7 +994,8 @@ def _gen_hist(rng):
                 disp=[repr(10 ** rng.uniform(-2, 3)) for _ in range(len(hist) + 1)], chain=rng.random() < 0.5,
                 vtype=rng.choice(["float", "float", "int", "np", "0d"]),
                 # the observed catalog is filtered IN PLACE between two tests (its event count changes), at this step
-                obs_filter=[rng.randint(0, 2), rng.choice([4.5, 4.25, 4.0, 3.7])] if rng.random() < 0.35 else None,
+                obs_filter=[rng.randint(0, 2), rng.choice([4.5, 4.25, 4.0, 3.7]), rng.choice(["inplace", "copy"])]
+                if rng.random() < 0.35 else None,
                 # an observed catalog without events, built without a data array
                 empty=rng.choice(["noarg", "list", "none"]) if rng.random() < 0.06 else None, tag="public-hist")
 
@@ -839,6 +1036,8 @@ def _hist_forecast(case, reg):
 
 def _factor(spec, shape):
     """the argument of scale(): an int / float, or an ndarray that broadcasts against the (cells, magnitudes) rates"""
+    if isinstance(spec, dict) and "date" in spec:
+        return spec
     if isinstance(spec, dict):
         g = numpy.random.default_rng(spec["seed"])
         shp = {"mag": (shape[1],), "cell": (shape[0], 1), "full": shape, "0d": (), "one": (1,), "row": (1, shape[1])}[spec["arr"]]
@@ -884,16 +1083,40 @@ def _hist_case(run, drv, pending, case):
         actions = [hist[:2]] + [[v] for v in hist[2:]]
     else:
         actions = [[v] for v in hist]
-    applied = []
+    applied, enc, dated = [], [], False
     for step in range(len(actions) + 1):
         if step > 0:
             r = f
             for v in actions[step - 1]:
+                if isinstance(v, dict):
+                    t, inside, frac = _date_factor(v)
+                    try:
+                        r = r.scale_to_test_date(t)
+                    except Exception as e:
+                        run.oracle_failure(dict(case, step=step), f"scale_to_test_date({t}): {type(e).__name__}: {e}")
+                        return
+                    dated = True
+                    enc.append(("i" if inside else "o") + bits(frac))
+                    if inside:
+                        applied.append(float(frac))
+                    run.count("hist:scale_to_test_date:" + ("inside" if inside else "outside-unchanged"))
+                    continue
                 r = r.scale(v)
                 applied.append(v)
+                enc.append("s" + bits(v) if not isinstance(v, numpy.ndarray) else "a")
         of = case.get("obs_filter")
         if of and step == min(of[0], len(actions)) and step > 0 and n > 0:
-            cat.filter(f"magnitude >= {float(of[1])!r}")
+            if len(of) > 2 and of[2] == "copy":
+                # a NEW catalog object made by filter(in_place=False): its own row count, the original keeps its rows
+                n_before = n
+                cat_new = cat.filter(f"magnitude >= {float(of[1])!r}", in_place=False)
+                if cat.event_count != n_before:
+                    run.oracle_failure(dict(case, step=step), f"filter(in_place=False) changed the original catalog: "
+                                                               f"{cat.event_count!r} rows, it held {n_before}")
+                cat = cat_new
+                run.count("hist:observed-catalog-is-a-filtered-copy")
+            else:
+                cat.filter(f"magnitude >= {float(of[1])!r}")
             n = int(numpy.count_nonzero(cat_mags >= float(of[1])))
             cat_mags = cat_mags[cat_mags >= float(of[1])]
             run.count("hist:observed-catalog-filtered-between-tests")
@@ -922,7 +1145,7 @@ def _hist_case(run, drv, pending, case):
         except Exception as e:
             run.oracle_failure(c, f"exception {type(e).__name__}: {e}")
             return
-        if not _close(mu, mu_ref, 1e-12):
+        if not _close(mu, mu_ref, 1e-12, 2e-12 * base_total if dated else 0.0):
             run.oracle_failure(c, f"after the scale history {case['hist'][:len(applied)]!r} the forecast total is {mu!r}; the "
                                   f"stored rates sum to {base_total!r}, the rates x last factor to {mu_ref!r}")
         if res.observed_statistic != n or cat.event_count != n:
@@ -931,6 +1154,8 @@ def _hist_case(run, drv, pending, case):
             pmf = _nbd_oracle(run, c, mu_ref, var, n, d1, d2)
             if is_arr:
                 i = drv.ask(f"c07_puban {','.join(bits(v) for v in flat)} {','.join(bits(v) for v in fflat)} {n} {bits(var)}")
+            elif dated and "a" not in enc:
+                i = drv.ask(f"c07_pubhn {','.join(bits(v) for v in flat)} {','.join(enc) or '-'} {n} {bits(var)}")
             else:
                 i = drv.ask(f"c07_pubn {','.join(bits(v) for v in flat)} {','.join(bits(v) for v in applied if not isinstance(v, numpy.ndarray)) or '-'} {n} {bits(var)}")
             pending.append(("nbd", c, i, None, d1, d2, n))
@@ -938,6 +1163,8 @@ def _hist_case(run, drv, pending, case):
             _, pmf = _pois_oracle(run, c, mu_ref, n, d1, d2)
             if is_arr:
                 i = drv.ask(f"c07_puba {','.join(bits(v) for v in flat)} {','.join(bits(v) for v in fflat)} {n}")
+            elif dated and "a" not in enc:
+                i = drv.ask(f"c07_pubh {','.join(bits(v) for v in flat)} {','.join(enc) or '-'} {n}")
             else:
                 i = drv.ask(f"c07_pub {','.join(bits(v) for v in flat)} "
                             f"{','.join(bits(v) for v in applied if not isinstance(v, numpy.ndarray)) or '-'} {n}")
@@ -985,7 +1212,7 @@ def _big_grid_case(run, drv, pending):
 
 
 # ----------------------------------------------------------------------------- sessions on shared objects
-SESSION_OPS = ["scale", "scale", "ntest", "ntest", "paired_t", "w_test", "binary_t", "target_rates", "spatial_counts",
+SESSION_OPS = ["scale", "scale", "ntest", "ntest", "copy_scale", "paired_t", "w_test", "binary_t", "target_rates", "spatial_counts",
                "magnitude_counts", "cl_test", "cat_filter", "event_count"]
 
 
@@ -1001,6 +1228,8 @@ def _gen_session(rng):
         if op == "scale":
             st["v"] = (dict(arr=rng.choice(["mag", "cell", "full", "0d"]), seed=rng.randrange(2 ** 32)) if rng.random() < 0.35
                        else rng.choice([0.5, 2.0, 1, 3, repr(1 / 365.25), repr(10 ** rng.uniform(-2, 2))]))
+        if op == "copy_scale":
+            st["v"] = rng.choice([0.5, 2.0, 3, repr(10 ** rng.uniform(-1, 1))])
         if op == "cat_filter":
             st["cut"] = rng.choice([4.5, 4.25, 5.0])
         steps.append(st)
@@ -1071,6 +1300,27 @@ def _session_case(run, drv, pending, case):
     for i, st in enumerate(case["steps"], start=1):
         k, k2 = st["f"] % case["nf"], st["g"] % case["nf"]
         op = st["op"]
+        if op == "copy_scale" and not isinstance(factors[k], numpy.ndarray):
+            # a deep copy of a forecast object, rescaled and N-tested: the copy has base x ITS factor; the original is
+            # verified below like after every step
+            import copy
+            v = float(st["v"]) if isinstance(st["v"], str) else st["v"]
+            mu_c = math.fsum(flat) * float(v)
+            if 1e-6 <= mu_c <= 1e5:
+                c = dict(case, step=i, f=k, mu=repr(mu_c), n=n, copy=True)
+                try:
+                    g2 = copy.deepcopy(fs[k]).scale(v)
+                    res = pe.number_test(g2, cat)
+                    d1, d2 = float(res.quantile[0]), float(res.quantile[1])
+                    _pois_oracle(run, c, mu_c, n, d1, d2)
+                    if not _close(float(g2.event_count), mu_c, 1e-12):
+                        run.oracle_failure(c, f"deep copy rescaled by {v!r}: total {float(g2.event_count)!r}, rates x factor {mu_c!r}")
+                except Exception as e:
+                    run.oracle_failure(c, f"deep copy + scale + N-test: {type(e).__name__}: {e}")
+            run.count("session-op:copy_scale")
+            if not verify(i):
+                return
+            continue
         try:
             with warnings.catch_warnings(), numpy.errstate(all="ignore"), contextlib.redirect_stdout(io.StringIO()):
                 warnings.simplefilter("ignore")
@@ -1123,6 +1373,112 @@ def _shift_cases(run, drv, pending, rng, count):
         run.case(case, ("shift", n))
         run.count("shift:" + ("proved-range" if n < 2 ** 33 else "beyond"))
         pending.append(("shift", case, drv.ask(f"c07_shift {n}"), None, lo, hi, n))
+
+
+def _shifte_cases(run, drv, pending, rng, count):
+    """(floor(n - eps), floor(n + eps)) in float64 for the epsilon values the array-level helpers are called with
+    (Soft64 `shiftFE` against numpy; theorem float_floor_shift_eps: 2^-k <= eps <= 1 - 2^-k and (n+1) 2^k <= 2^53)"""
+    pool = EPS_POOL + [2.0 ** -20, 1 - 2.0 ** -20, 2.0 ** -30, 1e-12, 0.75, 1 - 2.0 ** -53]
+    ns = [0, 1, 2, 99999, 100000, 2 ** 25 - 1, 2 ** 32 - 1, 2 ** 33, 2 ** 42, 2 ** 52 - 1]
+    todo = [(n, e) for n in ns[:5] for e in pool]
+    for _ in range(count):
+        k = rng.random()
+        todo.append((rng.randint(0, N_MAX) if k < 0.6 else rng.randint(0, 2 ** rng.randint(17, 53)), rng.choice(pool)))
+    for n, e in todo:
+        lo = math.floor(float(numpy.float64(n) - numpy.float64(e)))
+        hi = math.floor(float(numpy.float64(n) + numpy.float64(e)))
+        case = dict(kind="shifte", n=n, eps=repr(e), tag="shifte")
+        proved = any(Fraction(2) ** -k <= Fraction(e) <= 1 - Fraction(2) ** -k and (n + 1) * 2 ** k <= 2 ** 53
+                     for k in range(1, 53))
+        if proved and (lo, hi) != (n - 1, n):
+            run.oracle_failure(case, f"float64: floor(n - eps), floor(n + eps) = {lo}, {hi} for n = {n}, eps = {e!r}")
+        run.case(case, ("shifte", n, e))
+        run.count("shifte:" + ("proved-range" if proved else "beyond"))
+        fe = Fraction(e)
+        pending.append(("shifte", case, drv.ask(f"c07_shifte {n} {fe.numerator}/{fe.denominator}"), None, lo, hi, n))
+
+
+def _gen_wide_pair(rng):
+    """(mean, var) of any admissible dispersion: near-Poisson down to one ulp above the mean, wide up to 1e17 x mean"""
+    mu = _gen_mu(rng)
+    k = rng.random()
+    if k < 0.35:
+        var = mu * 10 ** rng.uniform(0.001, 17)
+    elif k < 0.5:
+        var = mu * 2.0 ** rng.randint(1, 58)
+    elif k < 0.65:
+        var = float(numpy.nextafter(mu, numpy.inf)) if rng.random() < 0.3 else mu * (1 + 10 ** rng.uniform(-15, -3))
+    elif k < 0.8:
+        var = rng.choice([23541.0, 1e10, 1e17, 1.0, 2.0 ** 53, 1e300])
+    else:
+        var = _gen_var(rng, mu)
+    return mu, (var if var > mu else mu * 2.0)
+
+
+def _ups_cases(run, drv, pending, rng, count):
+    """the three float64 operations of `upsilon = 1.0 - ((var - mean) / var)` (binomial_evaluations.py:24): Soft64
+    `upsilonF` bit-for-bit against the same expression in IEEE arithmetic, over every dispersion (also where the code's
+    formula is the subject of the finding above); theorem upsilon_float_range: the value lies in [0, 1]"""
+    todo = [(1.0, 1e17), (1.0, 1e10), (3.0, 3.0 * 2 ** 40), (1e-6, 23541.0), (1e5, 1e5 + 1e-6), (5.0, 5.000000000000005)]
+    todo += [_gen_wide_pair(rng) for _ in range(count)]
+    worst = run.extra.get("nbd_upsilon_worst_rel_error_vs_mean_over_var", [0.0, None])
+    for mu, var in todo:
+        ups = 1.0 - ((var - mu) / var)
+        direct = mu / var
+        case = dict(kind="ups", mu=repr(mu), var=repr(var), tag="ups")
+        if not 0.0 <= ups <= 1.0:
+            run.oracle_failure(case, f"float64: 1.0 - ((var - mean) / var) = {ups!r} is outside [0, 1]")
+        if direct > 0:
+            rel = abs(ups - direct) / direct
+            if rel > worst[0]:
+                worst = [rel, [mu, var]]
+        run.case(case, ("ups", mu, var))
+        run.count("ups:" + ("p=0" if ups == 0.0 else ("p=1" if ups == 1.0 else "interior")))
+        fm, fv = Fraction(mu), Fraction(var)
+        pending.append(("ups", case, drv.ask(f"c07_ups {fm.numerator}/{fm.denominator} {fv.numerator}/{fv.denominator}"),
+                        None, ups, direct, 0))
+    run.extra["nbd_upsilon_worst_rel_error_vs_mean_over_var"] = worst
+
+
+def _upsilon_probe(run):
+    """is the cancellation finding (AWAITING_DECISION) present in the tree under test? recorded, never judged here"""
+    from csep.core import binomial_evaluations as be
+    try:
+        fn = getattr(be, "_nbd_number_test_ndarray", None) or (lambda m, n, v: _public_pair(run, {}, m, n, v))
+        with numpy.errstate(all="ignore"):
+            a = fn(1.0, 0, 1e17)
+            b = fn(78159.23998281111, 1, 2.4404283166859148e+16)
+        ref = 6.625190878055532e-06          # 80-digit arithmetic on the law with the exact rational parameters
+        state = {"nan_at_mean_1_var_1e17": not (float(a[0]) == 1.0 and 0.0 <= float(a[1]) <= 1.0),
+                 "delta1_rel_error_at_dispersion_3e11": abs(float(b[0]) - ref) / ref}
+    except Exception as e:
+        state = {"exception": f"{type(e).__name__}: {e}"}
+    run.extra["awaiting_decision_nbd_upsilon"] = state
+
+
+def _mono_pair_nbd(run, drv, pending, rng):
+    """theorem nbd_delta_mono_mean_dispersion: mean1 <= mean2, dispersion var/mean not decreasing, shape mean^2/(var-mean)
+    not decreasing => delta1 up, delta2 down (fixed dispersion is the boundary case disp2 = disp1)"""
+    n = rng.choice([0, 1, 2, rng.randint(3, 50), rng.randint(50, 2000), rng.randint(2000, N_MAX)])
+    centre = max(n, 0.5)
+    m1 = min(max(centre * 10 ** rng.uniform(-1, 0.5), 1e-6), 5e4)
+    m2 = min(m1 * (1 + 10 ** rng.uniform(-3, 0.7)), 1e5)
+    d1 = 1 + 10 ** rng.uniform(-2, 3)
+    hi = 1 + (m2 / m1) * (d1 - 1)
+    t = rng.choice([0.0, 1.0, rng.random()])
+    d2 = min(d1 + t * (hi - d1), NBD_DISPERSION_CAP)
+    if not (d2 >= d1 and m2 / (d2 - 1) >= m1 / (d1 - 1) * (1 - 1e-12)):
+        d2 = d1
+    a = _nbd_case(run, drv, pending, rng, m1, m1 * d1, n, "mono-pair")
+    b = _nbd_case(run, drv, pending, rng, m2, m2 * d2, n, "mono-pair")
+    if a is None or b is None:
+        return
+    slack = 1e-9
+    if a[0] > b[0] + slack + slack * abs(b[0]) or b[1] > a[1] + slack + slack * abs(a[1]):
+        case = dict(kind="mono-pair-nbd", n=n, mu1=repr(m1), mu2=repr(m2), disp1=repr(d1), disp2=repr(d2), tag="mono-pair")
+        run.oracle_failure(case, f"NBD not monotone along non-decreasing dispersion and shape: delta({m1!r}, x{d1!r})={a!r} "
+                                 f"delta({m2!r}, x{d2!r})={b!r}")
+    run.count("mono-pair:nbd" + (":fixed-dispersion" if d2 == d1 else ""))
 
 
 # ----------------------------------------------------------------------------- consecutive counts
@@ -1183,11 +1539,23 @@ def _flush(run, drv, pending):
                 return int(k) / int(m)
             try:
                 a, b = out[i].split()
-                ok = (val(a) == d1 and val(b) == d2)
+                ok = (abs(val(a) - d1) <= 2.3e-16 and abs(val(b) - d2) <= 2.3e-16)
             except Exception:
                 ok = False
             if not ok:
                 run.mismatch(case, [d1, d2], out[i])
+            continue
+        if kind == "shifte":
+            if out[i].split() != [str(d1), str(d2)]:
+                run.mismatch(case, [d1, d2], out[i])
+            continue
+        if kind == "ups":
+            try:
+                ok = [Fraction(t) for t in out[i].split()] == [Fraction(d1), Fraction(d2)]
+            except Exception:
+                ok = False
+            if not ok:
+                run.mismatch(case, [repr(d1), repr(d2)], out[i])
             continue
         if kind == "shift":
             toks = out[i].split()
@@ -1279,6 +1647,15 @@ def run(run, rng, tier):
     for _ in range(40 if quick else 700):
         _session_case(run, drv, pending, _gen_session(rng))
     _shift_cases(run, drv, pending, rng, 150 if quick else 5000)
+    _shifte_cases(run, drv, pending, rng, 150 if quick else 5000)
+    _ups_cases(run, drv, pending, rng, 300 if quick else 8000)
+    _upsilon_probe(run)
+    if NBD_WIDE_DISPERSION:
+        for _ in range(200 if quick else 4000):
+            mu, var = _gen_wide_pair(rng)
+            _nbd_case(run, drv, pending, rng, mu, var, _gen_n(rng, mu, min(math.sqrt(var), 1e6)), "wide")
+    for _ in range(40 if quick else 500):
+        _mono_pair_nbd(run, drv, pending, rng)
     for _ in range(40 if quick else 600):
         _count_chain(run, drv, pending, rng, "pois")
         _count_chain(run, drv, pending, rng, "nbd")
@@ -1307,6 +1684,17 @@ def replay(run, payload):
         _big_grid_case(run, drv, pending)
     elif k == "shift":
         _shift_cases(run, drv, pending, rng, 0)
+    elif k == "shifte":
+        _shifte_cases(run, drv, pending, rng, 0)
+    elif k == "ups":
+        _ups_cases(run, drv, pending, rng, 0)
+    elif k == "mono-pair-nbd":
+        vals = [_nbd_case(run, drv, pending, rng, float(case[m]), float(case[m]) * float(case[d]), int(case["n"]), "replay")
+                for m, d in (("mu1", "disp1"), ("mu2", "disp2"))]
+        if None not in vals:
+            a, b = vals
+            if a[0] > b[0] + 1e-9 + 1e-9 * abs(b[0]) or b[1] > a[1] + 1e-9 + 1e-9 * abs(a[1]):
+                run.oracle_failure(case, f"NBD not monotone along non-decreasing dispersion and shape: {a!r} then {b!r}")
     elif k.startswith("chain-"):
         for n in (int(case["n"]), int(case["n"]) + 1):
             if k == "chain-pois":
@@ -1321,7 +1709,7 @@ def replay(run, payload):
                   vtype=case.get("vtype", "float"), eps=float(case["eps"]) if case.get("eps") else None)
     elif k == "catalog":
         _catalog_case(run, drv, pending, rng, "quick", case["sizes"], case["nobs"], case.get("extras"),
-                      case.get("obs_extras"))
+                      case.get("obs_extras"), source=case.get("source"), n_cat_kind=case.get("n_cat_kind"))
     elif k.startswith("mono-"):
         vals = []
         for mu in (float(case["mu1"]), float(case["mu2"])):
